@@ -66,7 +66,10 @@ psutil_proc_ioprio_set(PyObject *self, PyObject *args) {
             args, _Py_PARSE_PID "ii", &pid, &ioclass, &iodata)) {
         return NULL;
     }
-    ioprio = IOPRIO_PRIO_VALUE(ioclass, iodata);
+    // Shift as unsigned: "ioclass << 13" on a signed int is undefined
+    // for negative or large values; the kernel rejects them with EINVAL.
+    ioprio = (int)(((unsigned int)ioclass << IOPRIO_CLASS_SHIFT)
+                   | (unsigned int)iodata);
     retval = ioprio_set(IOPRIO_WHO_PROCESS, pid, ioprio);
     if (retval == -1)
         return PyErr_SetFromErrno(PyExc_OSError);
